@@ -24,7 +24,7 @@ RULE = ("merge: every multiset of <= 3 (quick) / <= 4 (thorough) of the 36 inter
         "read from a GFF3 database; each followed by merging the same objects again (same and other criteria) and by "
         "merging the yielded objects; merge_all on random GFF3 databases x tie-insensitive criteria x exclude_components x "
         "featuretype groups; children_bp on gene/transcript/exon databases (exons listing parents of one or several levels, "
-        "so that a child is related to the queried feature at 1, 2 or 3 levels at once); shaped lists / databases: a long "
+        "so that a child is related to the queried gene at levels 1 and 2 at once); shaped lists / databases: a long "
         "interval followed by shorter ones inside it that overlap, touch or lie detached from their predecessor, uniform or "
         "with inner features on another seqid / strand / type, under the default criteria, exact_coordinates_only, custom and "
         "random criteria, through merge() and merge_all (no ties on the merge order, every criterion); merge_criteria handed "
@@ -610,11 +610,6 @@ def gen_children_bp(rng):
     rows = [[seqid, strand, "gene", 1, 200]]
     ids = ["G"]
     parents = [[]]
-    top = rng.random() < 0.3
-    if top:      # a level above the gene
-        rows.insert(0, [seqid, strand, "locus", 1, 300])
-        ids.insert(0, "S")
-        parents = [[], ["S"]]
     for t in range(nt):
         rows.append([seqid, strand, "mRNA", 1, 200])
         ids.append("T%d" % t)
@@ -630,19 +625,17 @@ def gen_children_bp(rng):
         elif r < 0.78:
             par = sorted(set(["T%d" % rng.randrange(nt), "T%d" % rng.randrange(nt)]))
         else:
-            # parents of several levels: the child is related to G (and S) at more than one level
+            # parents of two levels: the child is related to G at level 1 and (through the transcript) at level 2
             par = ["T%d" % rng.randrange(nt), "G"]
             if rng.random() < 0.3:
                 par.append("T%d" % rng.randrange(nt))
-            if top and rng.random() < 0.4:
-                par.append("S")
             par = sorted(set(par))
             rng.shuffle(par)
         rows.append([seqid, rng.choice(G.STRANDS) if mixed else strand, rng.choice(["exon", "exon", "exon", "CDS"]), s, e])
         ids.append("x%d" % j)
         parents.append(par)
     calls = []
-    for target in (["S"] if top else []) + ["G"] + ["T%d" % t for t in range(nt)]:
+    for target in ["G"] + ["T%d" % t for t in range(nt)]:
         for ctype in ("exon", "CDS"):
             calls.append({"of": target, "child_featuretype": ctype, "merge": False, "by": rng.choice(["id", "feature"])})
             calls.append({"of": target, "child_featuretype": ctype, "merge": True, "by": rng.choice(["id", "feature"])})
@@ -707,7 +700,8 @@ def run(ctx):
             second = G.criteria(rng) if rng.random() < 0.25 else rng.choice(
                 [["seqid", ["overlap_end_threshold", 0]], ["seqid", "strand", "exact_coordinates_only"], list(M.DEFAULT)])
             case = {"kind": "merge", "source": "objects", "feats": G.rows(G.uniform_labels(rng, n), ivs), "criteria": list(M.DEFAULT),
-                    "omit_criteria": rng.random() < 0.5, "again": True, "second": second}
+                    "omit_criteria": rng.random() < 0.5, "again": True, "second": second,
+                    "form": G.criteria_form(rng, M.DEFAULT)}
             run_merge_case(ctx, case, "merge/exhaustive uniform default")
             n_exh += 1
             if n > 1:
@@ -715,8 +709,9 @@ def run(ctx):
                 case = {"kind": "merge", "source": "objects", "feats": feats, "criteria": list(M.DEFAULT), "again": False}
                 run_merge_case(ctx, case, "merge/exhaustive grouped default")
             labels = G.uniform_labels(rng, n) if rng.random() < 0.5 else G.mixed_labels(rng, n)
-            case = {"kind": "merge", "source": "objects", "feats": G.rows(labels, ivs), "criteria": G.criteria(rng),
-                    "again": rng.random() < 0.15, "second": G.criteria(rng)}
+            desc = G.criteria(rng)
+            case = {"kind": "merge", "source": "objects", "feats": G.rows(labels, ivs), "criteria": desc,
+                    "again": rng.random() < 0.15, "second": G.criteria(rng), "form": G.criteria_form(rng, desc)}
             run_merge_case(ctx, case, "merge/exhaustive criteria")
     ctx.mon("exhaustive (multiset, tie order) arrangements executed", n_exh)
     # 2. random lists, objects and databases
